@@ -11,11 +11,11 @@ P = {
  "C05": ("exploration", "independent recency model + eviction oracle (prefix, necessity, fit, oversize) over sequential histories of uploads, backend fetches and lookups (disk API and HTTP/gRPC front ends) on tiny caches incl. max_size values off the block grid, eviction order cross-checked with the lru.removed hook events", "runtime monitoring: reference LRU model compared against observed evictions"),
  "C06": ("exploration", "harness-computed referenced-blob set of generated ActionResults vs hit/miss answers on gRPC, HTTP GET and HEAD for all presence subsets; recency effect checked with the LRU model", "runtime monitoring: reference-model oracle over generated ActionResults and presence subsets"),
  "C07": ("exploration", "Go race detector over hostile concurrent workloads (check process linking the packages, and the real executable built with -race) + self-describing values + per-key linearizability (porcupine) + M-acct/M-dir at quiescence + schedule forcing through tag-guarded yield points", "race detector + porcupine linearizability checking of recorded histories + hooked invariants"),
- "C08": ("fault_enumeration", "crash images taken at every reader callback / hook point of uploads, overwrites, fetches and evictions, restarted with the real loader and read back; plus real SIGKILLs of child servers", "fault injection (crash images at enumerated points, real SIGKILL) with restart oracle"),
+ "C08": ("fault_enumeration", "crash images (timestamps preserved) taken at every reader callback / hook point of uploads, overwrites, fetches and evictions, restarted with the real loader and read back through disk API and front ends (every restarted entry, repeat-first orders, just-acknowledged durability); plus real SIGKILLs of child servers incl. hook kills and restarts of the real binary", "fault injection (crash images at enumerated points, real SIGKILL) with restart oracle"),
  "C09": ("exploration", "generated directory populations (layouts, modes, duplicates, atimes) restarted at several max_size values; survivors/evictions compared with an atime-order oracle and M-acct/M-dir", "runtime monitoring: restart oracle over generated directories"),
  "C10": ("exploration", "expected missing list computed from the harness's own partition of digests (local/backend/absent/mismatched/empty/duplicates), all batch-boundary lengths, with and without backends (fake, real http/grpc proxies, real binary configured by flags/env/YAML), backend fault answers, overlapping concurrent calls of which some are cancelled", "runtime monitoring: reference-model comparison of FindMissingBlobs answers"),
  "C11": ("exploration", "well-formedness predicate and normalised proto equality over generically populated ActionResults across gRPC/HTTP proto/JSON/zstd encodings; reference map of latest accepted upload", "runtime monitoring: reference-model oracle over generated messages"),
- "C12": ("fault_enumeration", "fault plans enumerated over stage x fault x operation x backend (http, grpc, s3, fake) x storage; outcome must be miss/error/exact hit; re-read after fault; leak/reservation/dir oracles", "fault injection in harness back ends with client-boundary + leak oracles"),
+ "C12": ("fault_enumeration", "fault plans enumerated over stage x fault x operation x backend (http, grpc, s3, azure transport, fake) x storage; outcome must be miss/error/exact hit; re-read after fault; leak/reservation/dir oracles incl. every abandoned-read class in the N-vs-2N measurement; write sequences to one mutable key while the first transfer is parked (handed once, peer reads latest)", "fault injection in harness back ends with client-boundary + leak oracles"),
  "C13": ("exploration", "exhaustive probe matrix against the real binary: auth mode x allow_unauthenticated_reads x metrics x every HTTP method/path and every registered gRPC method x credential state, credential lifecycle (htpasswd rewritten while serving, login sequences), foreign CA in the host trust store", "runtime monitoring: exhaustive black-box probe matrix against the real binary"),
  "C14": ("exploration", "structure-aware request fuzzing of every endpoint of child servers with liveness, handler-panic, hang (persistent goroutine) and leak (goroutine/fd/reservation/file) oracles", "generative fuzzing with crash/hang/leak monitors on child processes"),
  "C15": ("exploration", "reference map (namespace,key,instance)->value vs both front ends under random cross-namespace operation orders, mangling and validation on/off", "runtime monitoring: reference-map oracle"),
